@@ -3,6 +3,7 @@ package main
 import (
 	"fmt"
 	"hash/fnv"
+	"os"
 	"strings"
 
 	"github.com/alecthomas/participle/v2/lexer"
@@ -33,18 +34,25 @@ func refDigestMain(args []string) {
 					add(call(func() (interface{}, error) { s := p.String(); return &s, nil }).desc())
 					for _, d := range w.docs {
 						texts := []string{d.text}
-						if d.unitLen > 0 {
+						exact := w.verbatim || backtrackingWorlds[w.name] // documents of such worlds are used as they are
+						if d.unitLen > 0 && !exact {
 							texts = append(texts, d.expand(7))
 						}
-						if d.nest != nil {
+						if d.nest != nil && !exact {
 							texts = append(texts, d.nest(9))
 						}
 						for _, t := range texts {
 							t = instantiate(t, delims)
 							for cut := 0; cut <= 2; cut++ {
 								in := t
+								if cut > 0 && exact {
+									continue
+								}
 								if cut > 0 && len(t) > 2 {
 									in = t[:len(t)*cut/3]
+								}
+								if os.Getenv("VERIF_REFDIGEST_PROGRESS") != "" {
+									fmt.Fprintf(os.Stderr, "refdigest: %s la=%d gen=%v narrow=%v doc=%s cut=%d len=%d\n", w.name, la, gen, narrow, d.name, cut, len(in))
 								}
 								add(call(func() (interface{}, error) { return p.ParseString("ref", in) }).desc())
 								add(lexCall(func() ([]lexer.Token, error) { return p.Lex("ref", strings.NewReader(in)) }).desc())
